@@ -273,7 +273,7 @@ def run(ctx, rep):
         rets = [st for st in iter_stmts(chooser.body) if isinstance(st, ast.Return) and st.value is not None]
         r_user = [r for r in rets if isinstance(r.value, ast.Name) and r.value.id == user_p]
         r_native = [r for r in rets if any(isinstance(n, ast.Attribute) and n.attr == "native_gates" for n in ast.walk(r.value))]
-        r_fresh = [r for r in rets if isinstance(r.value, ast.Call) and "jaqalpaq.core.gatedef.GateDefinition" in T.types_of(r.value)]
+        r_fresh = [r for r in rets if isinstance(r.value, ast.Call) and any(t in ix.classes and ix.is_subclass(t, "jaqalpaq.core.gatedef.AbstractGate") for t in T.types_of(r.value))]
         if not (r_user and r_native and r_fresh):
             rep.undecided("C09.5", cons, "the three returns (caller's, native, fresh) are not all recognised", chooser.loc())
         else:
